@@ -169,10 +169,29 @@ CLAIMED = {
    design="5/C20", technique="Coq proof: exhaustive vm_compute sweep lifted by forallb lemma + induction over histories; model regenerated by py2v",
    note=BASE_NOTE + " Setters assumed to be called with bool/0/1."),
 }
+# what later rounds added to a property's check (models, theorems, harness classes); appended to the claim text
+ADDED = {}
+try:
+    exec(open(os.path.join(HERE, "tools", "mkmanifest_added.py")).read())
+except FileNotFoundError:
+    pass
+
+
+def theorem_names(pid):
+    import re
+    try:
+        src = open(os.path.join(HERE, "coq", "Props", pid + ".v")).read()
+    except OSError:
+        return []
+    return [n for k, n in re.findall(r"^(Theorem|Lemma|Corollary)\s+([A-Za-z0-9_']+)", src, flags=re.M)]
+
+
 checks = []
 for pid in ALL:
     if pid in CLAIMED:
-        c = CLAIMED[pid]
+        c = dict(CLAIMED[pid])
+        names = theorem_names(pid)
+        c["text"] = c["text"] + (" " + ADDED[pid] if pid in ADDED else "") + f" [{len(names)} theorems in coq/Props/{pid}.v: " + ", ".join(names) + "]"
         checks.append({
             "property_id": pid,
             "quick_cmd": f"./check {pid} --tier quick",
